@@ -178,7 +178,10 @@ Definition buffer_spec (inp out : list event) : bool :=
 
 Inductive c18_source :=
 | SScript (inp : list event)
-| SPoll (nows : list Z) (srcs : list (list event)).
+| SPoll (nows : list Z) (srcs : list (list event))
+(* oracle-only cases: the inputs of an operator that is modelled elsewhere (StreamJoin and OuterJoin: C19;
+   the group-by with triggers: C16/C17); only the C18 oracle is applied to what the operator emitted *)
+| SInputs (inputs : list (list event)).
 
 (* source, nodes, kind, observed output *)
 Definition c18_case : Type := c18_source * list c18_node * Z * list event.
@@ -187,14 +190,16 @@ Definition source_events (s : c18_source) : list event :=
   match s with
   | SScript inp => inp
   | SPoll nows srcs => poll_run (clock_of nows) 0 srcs
+  | SInputs _ => []
   end.
 Definition source_events_pinned (s : c18_source) : list event :=
   match s with
   | SScript inp => inp
   | SPoll nows srcs => poll_run_pinned (clock_of nows) 0 srcs
+  | SInputs _ => []
   end.
 (* poll ends with the source's error, which every node hands on *)
-Definition source_fails (s : c18_source) : bool := match s with SScript _ => false | SPoll _ _ => true end.
+Definition source_fails (s : c18_source) : bool := match s with SPoll _ _ => true | _ => false end.
 
 Definition c18_tie (c : c18_case) : bool :=
   let '(s, ns, kind, out) := c in
@@ -208,19 +213,26 @@ Definition c18_tie (c : c18_case) : bool :=
       | Err _ => kind =? 1
       | Panic _ => kind =? 2
       end
+  | SInputs _ => true
   end.
 
 Definition source_ok (s : c18_source) : bool :=
   match s with
   | SScript inp => well_timed inp
   | SPoll nows srcs => forallb no_wms srcs && strictly_increasing_from zero_ns nows
+  | SInputs inputs => forallb well_timed inputs
+  end.
+Definition source_monotone (s : c18_source) : bool :=
+  match s with
+  | SInputs inputs => forallb monotone inputs
+  | _ => monotone (source_events s)
   end.
 
 Definition c18_spec (c : c18_case) : bool :=
   let '(s, ns, kind, out) := c in
   negb (kind =? 2) &&
   (* watermarks never go backwards when the input's do not *)
-  (negb (monotone (source_events s)) || monotone out) &&
+  (negb (source_monotone s) || monotone out) &&
   (* no late data is created *)
   (negb (source_ok s) || well_timed out) &&
   (* the buffer on its own *)
